@@ -203,7 +203,7 @@ func init() {
 	)
 	sup.Register(&sup.Check{
 		Prop: "C02", Level: "exploration",
-		Rule:        "(sequential) engine A over the ten conditional entry points x every pre-state class x CAS class {0, current, stale, never-issued} with accept-iff-current judged against the model and the frame rule on every rejection; (concurrent) 2-4 conditional writers that all hold the same version are released together through 1-3 handles (all ordered pairs of entry points covered): exactly one must succeed, the losers must fail with a CAS-mismatch class and the final CAS must be the winner's; (forced windows) a rival write is committed deterministically inside the read-write window of Update / WriteUpdateWithXattrs (from the callback) and WriteSubDoc / SubdocInsert (at the subdoc.rw hook): the loop must re-read or, with an explicit CAS, fail, and both effects must survive; cell = (variant, pre-state, outcome, bucket type) / (racing pair, winner) / (loop, pre-state, rival)",
+		Rule:        "(sequential) engine A over the ten conditional entry points x every pre-state class x CAS class {0, current, stale, never-issued} with accept-iff-current judged against the model and the frame rule on every rejection; (concurrent) 2-4 conditional writers that all hold the same version are released together through 1-3 handles (all ordered pairs of entry points covered): exactly one must succeed, the losers must fail with a CAS-mismatch class and the final CAS must be the winner's; (forced windows) a rival write is committed deterministically inside the read-write window of Update / WriteUpdateWithXattrs (from the callback) and WriteSubDoc / SubdocInsert (at the subdoc.rw hook): the loop must re-read or, with an explicit CAS, fail, and both effects must survive; live-only rivals (DeleteSubDocPaths, Set+PreserveExpiry) are placed in every window that opened on a live document; cell = (variant, pre-state, outcome, bucket type) / (racing pair, winner) / (loop, pre-state, rival)",
 		Assumptions: kvAssume,
 		Parts:       parts02,
 		RaceOwner:   func(string) bool { return false },
@@ -225,7 +225,7 @@ func init() {
 	)
 	sup.Register(&sup.Check{
 		Prop: "C18", Level: "exploration",
-		Rule:        "(sequential) engine A: WriteSubDoc / SubdocInsert / GetSubDocRaw over JSON documents of depth <= 3 with dotted paths that are present, absent, or run through scalars and arrays, empty value = remove, every CAS class; the post-write document must equal the pre-document with exactly the addressed property set/removed (JSON equality with numbers compared as exact rationals: integers beyond 2^53 and long decimals must survive in every property; removals with nil and with empty non-nil values; paths through a null-valued property; documents that end in insignificant whitespace); (concurrent) 3-8 clients each own one property of one document and set / remove it or insert fresh properties while others append to a list through Update and write xattrs: at the end every property reflects its owner's last acknowledged operation, every inserted property and list token is present once and untouched properties are preserved; (forced windows) a rival write is placed at the subdoc.rw hook between the read and the write; cell = (variant, pre-state, outcome, bucket type) / (loop, pre-state, rival)",
+		Rule:        "(sequential) engine A: WriteSubDoc / SubdocInsert / GetSubDocRaw over JSON documents of depth <= 3 with dotted paths that are present, absent, or run through scalars and arrays, empty value = remove, every CAS class; the post-write document must equal the pre-document with exactly the addressed property set/removed (JSON equality with numbers compared as exact rationals: integers beyond 2^53 and long decimals must survive in every property; removals with nil and with empty non-nil values; paths through a null-valued property; documents that end in insignificant whitespace); (concurrent) 3-8 clients each own one property of one document and set / remove it or insert fresh properties while others append to a list through Update and write xattrs: at the end every property reflects its owner's last acknowledged operation, every inserted property and list token is present once and untouched properties are preserved; (forced windows) a rival write is placed at the subdoc.rw hook between the read and the write; live-only rivals (DeleteSubDocPaths, Set+PreserveExpiry) are placed in every window that opened on a live document; string properties with control characters, DEL and non-BMP characters; cell = (variant, pre-state, outcome, bucket type) / (loop, pre-state, rival)",
 		Assumptions: kvAssume,
 		Parts:       parts18,
 		RaceOwner:   func(string) bool { return false },
